@@ -4,7 +4,7 @@ white-box listing of every member's primary and backup entries and a client iter
 from streams import cluster
 from streams.cluster import Oracle, HEADER, hx   # noqa: F401
 
-REQUIRED_SHAPES = ["destroy", "wb_keys_checked", "iterator_checked", "mirror_checked"]
+REQUIRED_SHAPES = ["name_and_prefixed_name", "destroy", "wb_keys_checked", "iterator_checked", "mirror_checked"]
 
 
 class Gen(cluster.Gen):
@@ -15,3 +15,11 @@ class Gen(cluster.Gen):
     def __init__(self, rng, tier="quick"):
         super().__init__(rng, tier)
         self.keyset = [k for k in Gen.keyset if k]   # an empty key is not a valid RESP argument for every path
+
+    def episode(self, orc, nops):
+        # every third episode: a name and the same name behind the prefix the implementation itself puts in front of
+        # fragment names ("orders" and "dmap.orders" are two DMaps)
+        self.dms = ["ab", "dmap.ab", "dmap.dmap.ab"] if getattr(self, "ep", 0) % 3 == 2 else Gen.dms
+        if self.dms is not Gen.dms:
+            orc.hit("name_and_prefixed_name")
+        return super().episode(orc, nops)
